@@ -36,6 +36,7 @@ func init() {
 			"p4create": {N: func(t string) int { return tierN(t, 3, 160) }, Case: c15Case("p4"), Race: true, Env: raceEnv()},
 			"p5faulty": {N: func(t string) int { return tierN(t, 4, 240) }, Case: c15Case("p5"), Race: true, Env: raceEnv()},
 			"p6twodbs": {N: func(t string) int { return tierN(t, 3, 160) }, Case: c15Case("p6"), Race: true, Env: raceEnv()},
+			"p9reopen": {N: func(t string) int { return tierN(t, 2, 32) }, Case: c15Case("p9"), Race: true, Env: raceEnv()},
 			"p8dirs":   {N: func(t string) int { return tierN(t, 2, 48) }, Case: c15Case("p8"), Race: true, Env: raceEnv()},
 			"p7batch":  {N: func(t string) int { return tierN(t, 8, 48) }, Case: c15Case("p7"), Race: true, Env: raceEnv()},
 		},
@@ -182,6 +183,8 @@ func c15Case(prog string) func(string, int64, int, string) rt.CaseResult {
 			logs = c15BigBatch(&c, seed, idx, scratch)
 		case "p8":
 			logs = c15Dirs(&c, seed, idx, scratch)
+		case "p9":
+			logs = c15Reopen(&c, seed, idx, scratch)
 		case "p6":
 			// two (three) databases in one process, each used by its own goroutines at the same time:
 			// whatever fs_db keeps per process (sequence counter, pools, caches) is shared by them
@@ -517,7 +520,7 @@ func c15Create(c *rt.CaseResult, seed int64, idx int, scratch string) [][]tlog {
 }
 
 func init() {
-	Registry["C15"].Rule += " P8: directories limited to 100 entries on 1-2 roots, six writers of fresh keys and two deleters, the scheduled collector at 20 ms: directories fill up, are replaced, lose files and are handed back to the directory repository by the cleaner while other goroutines are choosing a directory. P7: clean-up batches of several thousand versions, i.e. more chunks of the cleaner than three times the workers (rollbacks of transactions with 4300-5000 deletions, one worker) while other goroutines write and read. P6: two or three databases in one process (the third behind the server), each driven by its own goroutines at the same time. P5: the steady workload (inline and through the server) with faults injected by stateless fault functions - a few percent of the content writes fail (no space, fully or after half the chunk; EIO), of the metadata writes and file creations fail, one root reports less free space than the other, and one call in eight carries a context that expires within 20-600 us - so that the error and clean-up paths run concurrently under the race detector too."
+	Registry["C15"].Rule += " P9: a database with 1200-2100 keys (some overwritten, some deleted) is reopened several times with a collector period of 20-200 us, and used by four goroutines right after each Open: the start-up (loading, clean-up of leftovers) runs next to the database's own scheduled work. P8: directories limited to 100 entries on 1-2 roots, six writers of fresh keys and two deleters, the scheduled collector at 20 ms: directories fill up, are replaced, lose files and are handed back to the directory repository by the cleaner while other goroutines are choosing a directory. P7: clean-up batches of several thousand versions, i.e. more chunks of the cleaner than three times the workers (rollbacks of transactions with 4300-5000 deletions, one worker) while other goroutines write and read. P6: two or three databases in one process (the third behind the server), each driven by its own goroutines at the same time. P5: the steady workload (inline and through the server) with faults injected by stateless fault functions - a few percent of the content writes fail (no space, fully or after half the chunk; EIO), of the metadata writes and file creations fail, one root reports less free space than the other, and one call in eight carries a context that expires within 20-600 us - so that the error and clean-up paths run concurrently under the race detector too."
 }
 
 // c15BigBatch: one goroutine ends transactions whose clean-up is larger than one chunk of the
@@ -633,5 +636,58 @@ func c15Dirs(c *rt.CaseResult, seed int64, idx int, scratch string) [][]tlog {
 	wg.Wait()
 	env.Collect()
 	env.Drain()
+	return logs
+}
+
+// c15Reopen: Open of a populated database with a collector that ticks every few microseconds.
+func c15Reopen(c *rt.CaseResult, seed int64, idx int, scratch string) [][]tlog {
+	opt := dbx.Options{Mode: dbx.Inline, Dir: filepath.Join(scratch, "db"), NumWorkers: 2}
+	env, err := dbx.Open(opt)
+	if err != nil {
+		c.Violate("open-failed", err.Error(), nil)
+		return [][]tlog{{}}
+	}
+	n := 1200 + 300*(idx%4)
+	for i := 0; i < n; i++ {
+		if i%256 == 0 {
+			rt.Beat()
+		}
+		env.DB.Set(ctxBg, fmt.Sprintf("r%05d", i), []byte("v"))
+		if i%7 == 0 {
+			env.DB.Set(ctxBg, fmt.Sprintf("r%05d", i), []byte("w"))
+		}
+		if i%11 == 0 {
+			env.DB.Delete(ctxBg, fmt.Sprintf("r%05d", i/2))
+		}
+	}
+	env.Close()
+	logs := make([][]tlog, 4)
+	t0 := time.Now()
+	for round := 0; round < 2; round++ {
+		rt.Beat()
+		opt.GCPeriod = time.Duration(20+60*((round+idx)%4)) * time.Microsecond
+		s := time.Since(t0)
+		env, err = dbx.Open(opt)
+		if err != nil {
+			c.Violate("open-failed reopen", err.Error(), nil)
+			return logs
+		}
+		logs[0] = append(logs[0], tlog{"open", s, time.Since(t0)})
+		var wg sync.WaitGroup
+		for g := 1; g < 4; g++ {
+			wg.Add(1)
+			go func(g int) {
+				defer wg.Done()
+				for i := 0; i < 40; i++ {
+					s := time.Since(t0)
+					kind := []string{"get", "set", "delete", "begin"}[(i+g)%4]
+					c15Op(env.DB, kind, fmt.Sprintf("r%05d", (i*37+g)%n), fmt.Sprintf("p9-%d-%d-%d", idx, g, i))
+					logs[g] = append(logs[g], tlog{kind, s, time.Since(t0)})
+				}
+			}(g)
+		}
+		wg.Wait()
+		env.Close()
+	}
 	return logs
 }
